@@ -6,7 +6,7 @@ use std::cmp::max;
 use std::collections::BTreeSet;
 
 // [trusted:stand-in] ic_btc_types::BlockHash is `[u8; 32]` with derived equality; only equality is used here.
-#[derive(PartialEq, Eq, Clone, Copy, Structural, Debug)]
+#[derive(PartialEq, Eq, PartialOrd, Ord, Clone, Copy, Structural, Debug)]
 pub struct BlockHash(pub u64);
 
 // [trusted:stand-in] bitcoin::block::Header — opaque in this unit.
